@@ -111,6 +111,16 @@ class Agg:
         self.knob_cov["parallel=%s" % kn.get("parallel")] += 1
         self.knob_cov["size=" + str(kn.get("size_class"))] += 1
         self.knob_cov["atime=" + kn.get("atime", "relatime")] += 1
+        # vocabulary of rounds 20-21: how many runs actually had it
+        if any(k.get("ppn") or k.get("vn") for k in kn.get("keys", [])):
+            self.knob_cov["several_named_directive_functions"] += 1
+        for name in ("mass_eviction", "sparse_writer", "http_last_modified", "cache_dir_link", "multipart", "warnings_error"):
+            if kn.get(name):
+                self.knob_cov[name] += 1
+        if kn.get("err_type") in ("warning", "userwarning"):
+            self.knob_cov["faults_raise_a_Warning_subclass"] += 1
+        if any(">>" in k.get("res", "") for k in kn.get("keys", [])):
+            self.knob_cov["object_name_with_>>"] += 1
         if s.decisions:
             self.ilv.add(mix(tuple(s.interleave_sig)) & 0xFFFFFFFFFFFF)
         fired_total = sum(w.stats["fired"].values()) + w.stats["crashes"]
